@@ -28,6 +28,7 @@ class Hist(object):
         self.p = self.model.project
         self.tr = tracer
         self.log = []
+        self.shared_absence = None   # if set: this very list object is passed to every simulate call
 
     def _call(self, fn, *a, **k):
         try:
@@ -46,6 +47,14 @@ class Hist(object):
         kind = op[0]
         p, spec = self.p, self.spec
         self.log.append(op)
+        if self.shared_absence is not None and kind in ("sim", "pause", "backward"):
+            kw = B.sim_args(spec)
+            kw["absence_time_list"] = self.shared_absence
+            if kind == "pause":
+                kw["max_time"] = op[1]
+            if kind == "backward":
+                return self._call(p.backward_simulate, considering_due_time_of_tail_tasks=bool(op[1]), reverse_log_information=bool(op[2]), **kw)
+            return self._call(p.simulate, **kw)
         if kind == "sim":
             return self._call(p.simulate, **B.sim_args(spec))
         if kind == "pause":
